@@ -16,7 +16,7 @@ func cBase(connType client.ConnectionType) CWorldCfg {
 }
 
 func c16Scenarios() []cParams {
-	evA := []string{"call:gettx:01", "call:gettx:02", "call:sendtx:01", "call:getheaders:5", "call:getheaders:6", "call:getheader:03", "call:reprocess:04",
+	evA := []string{"call:gettx:01", "call:gettx:02", "call:sendtx:01", "call:getheaders:5", "call:getheaders:0", "call:getheader:03", "call:reprocess:04",
 		"call:markinvalid:05", "call:marknotinvalid:05", "call:feequotes:-",
 		"ans:0:proper", "ans:1:proper", "ans:0:reject", "ans:1:reject", "unsol:basetx", "unsol:accept", "unsol:reject", "unsol:header", "tick:4000", "tick:10100"}
 	// calls issued before the handshake completes (the server accepts late) and across a drop
